@@ -14,8 +14,34 @@ pub trait Number: Sized + Copy {
     spec fn ceil_spec(self) -> Self;
     fn ceil(self) -> (r: Self)
         ensures r == self.ceil_spec();
+    spec fn floor_spec(self) -> Self;
+    fn floor(self) -> (r: Self)
+        ensures r == self.floor_spec();
+    // Number::usize = Cast::<usize>::cast
+    spec fn usize_spec(self) -> usize;
+    fn usize(self) -> (r: usize)
+        ensures r == self.usize_spec();
 }
+// floor / ceiling on the reals (A-REAL): greatest integer <= x, least integer >= x
+pub uninterp spec fn rfloor(x: real) -> int;
+pub uninterp spec fn rceil(x: real) -> int;
+pub broadcast axiom fn ax_rfloor(x: real)
+    ensures (#[trigger] rfloor(x)) as real <= x, x < (rfloor(x) + 1) as real;
+pub broadcast axiom fn ax_rceil(x: real)
+    ensures (#[trigger] rceil(x)) as real >= x, x > (rceil(x) - 1) as real;
 pub uninterp spec fn f64_ceil(x: f64) -> f64;
+pub uninterp spec fn f64_floor(x: f64) -> f64;
+pub uninterp spec fn f64_usize(x: f64) -> usize;
+pub broadcast axiom fn ax_f64_round(x: f64)
+    requires !nan(x),
+    ensures
+        !nan(#[trigger] f64_ceil(x)) && rv(f64_ceil(x)) == rceil(rv(x)) as real,
+        !nan(#[trigger] f64_floor(x)) && rv(f64_floor(x)) == rfloor(rv(x)) as real;
+// float -> usize cast of a non-negative integral value that fits (saturation / NaN -> 0 are outside this clause)
+pub broadcast axiom fn ax_f64_usize(x: f64)
+    requires !nan(x), rv(x) == rfloor(rv(x)) as real, 0 <= rfloor(rv(x)) <= usize::MAX,
+    ensures #[trigger] f64_usize(x) == rfloor(rv(x));
+pub broadcast group a_round { ax_rfloor, ax_rceil, ax_f64_round, ax_f64_usize }
 impl Number for f64 {
     open spec fn rval(self) -> real { rv(self) }
     open spec fn is_nanv(self) -> bool { nan(self) }
@@ -26,6 +52,12 @@ impl Number for f64 {
     open spec fn ceil_spec(self) -> f64 { f64_ceil(self) }
     #[verifier::external_body]
     fn ceil(self) -> (r: f64) { f64::ceil(self) }
+    open spec fn floor_spec(self) -> f64 { f64_floor(self) }
+    #[verifier::external_body]
+    fn floor(self) -> (r: f64) { f64::floor(self) }
+    open spec fn usize_spec(self) -> usize { f64_usize(self) }
+    #[verifier::external_body]
+    fn usize(self) -> (r: usize) { self as usize }
 }
 impl Number for usize {
     open spec fn rval(self) -> real { self as real }
@@ -37,6 +69,12 @@ impl Number for usize {
     open spec fn ceil_spec(self) -> usize { self }
     #[verifier::external_body]
     fn ceil(self) -> (r: usize) { self }
+    open spec fn floor_spec(self) -> usize { self }
+    #[verifier::external_body]
+    fn floor(self) -> (r: usize) { self }
+    open spec fn usize_spec(self) -> usize { self }
+    #[verifier::external_body]
+    fn usize(self) -> (r: usize) { self }
 }
 impl Number for i64 {
     open spec fn rval(self) -> real { self as real }
@@ -48,6 +86,12 @@ impl Number for i64 {
     open spec fn ceil_spec(self) -> i64 { self }
     #[verifier::external_body]
     fn ceil(self) -> (r: i64) { self }
+    open spec fn floor_spec(self) -> i64 { self }
+    #[verifier::external_body]
+    fn floor(self) -> (r: i64) { self }
+    open spec fn usize_spec(self) -> usize { self as usize }
+    #[verifier::external_body]
+    fn usize(self) -> (r: usize) { self as usize }
 }
 
 pub trait IsNone: Sized + Copy {
